@@ -388,6 +388,19 @@ class ReconnH(explore.Harness):
             self.viol.append(("c11:more-than-one-open-connection", {"open": [(c.cid, getattr(c, "behaviour", "?")) for c in opened], "t": now}))
         if self.pairing.is_connected and opened and (cur is None or opened[0] is not cur):
             self.viol.append(("c11:connected-but-open-connection-is-not-the-current-one", {"open": [c.cid for c in opened], "t": now}))
+        # "connected" means: a session the accessory has verified.  A pairing that reports connected while the accessory on the current connection
+        # has not (yet) accepted a pair-verify M3 lets callers send their requests in the clear on an unauthenticated connection
+        sess_cur = getattr(cur, "session", None) if cur is not None else None
+        if self.pairing.is_connected and sess_cur is not None and not sess_cur.verified:
+            self.viol.append(("c01:reports-connected-on-a-connection-whose-pair-verify-has-not-completed", {"cid": cur.cid, "behaviour": getattr(cur, "behaviour", "?"), "t": now}))
+        for c in self.net.conns:
+            sess = getattr(c, "session", None)
+            if sess is None or getattr(c, "plain_checked", 0) == len(sess.requests):
+                continue
+            for r in sess.requests[getattr(c, "plain_checked", 0):]:
+                if not r[0] and r[2] not in ("/pair-verify", "/pair-setup", "/identify"):
+                    self.viol.append(("c01:application-request-sent-in-the-clear", {"cid": c.cid, "target": r[2], "t": now}))
+            c.plain_checked = len(sess.requests)
         # a connection the peer has closed (its FIN has been handed to the protocol) is not a connection any more: the pairing must not go on
         # reporting it as connected (nothing would ever reconnect)
         if self.pairing.is_connected and cur is not None and not cur.peer_open and not getattr(cur.transport, "_lost_pending", False):
